@@ -21,7 +21,7 @@ import (
 // C05 — Distinct keeps exactly one whole row per distinct key.
 
 var evC04 = ev.New("C04", "derived frames (drawn <=40 rows, or 41..6000 rows filled from a drawn seed with key cardinalities crossing the hash table growth steps), "+
-	"0-4 key columns of any type, both Null settings, 0-4 aggregations (count,sum,min,max,avg,majority and order-sensitive user functions); "+
+	"0-4 key columns of any type, both Null settings in every spelling/order of the options, 0-4 aggregations (count,sum,min,max,avg,majority and order-sensitive user functions); "+
 	"oracle: model partition; QFrames = exactly the model groups (whole rows, frame order), Aggregate rows = model rows as a multiset; "+
 	"non-trivial = >=2 groups and a group with >=2 rows; distinct = FNV-64 of (table, route, keys, null option, aggregations)")
 
